@@ -12,7 +12,9 @@ from .engine import Engine, Ctx, Frame, Oblig, HRef
 class Case:
     """One specification case: when(c) -> guard over the pre-state; kind return|raise; post(c) -> {name: Bool}."""
     def __init__(self, name, when=None, kind='return', exc=None, post=None, result=None, tags=None, exc_fields=None,
-                 update=None):
+                 update=None, group=None):
+        self.group = group        # cases of one group with overlapping guards are alternatives (nondeterminism of
+        #                           application code): a path must satisfy at least one of them
         self.name, self.when, self.kind, self.exc, self.post, self.result, self.tags = name, when, kind, exc, post, result, tags
         self.exc_fields = exc_fields
         self.update = update      # constructive post-state: update(c) mutates c.ctx.st (used at call sites; the body
@@ -28,7 +30,10 @@ class LoopSpec:
 
 class Contract:
     def __init__(self, target, schema, self_obj, params, cases, requires=None, modifies=(), loops=None, props=(),
-                 must_fail=None, also=(), note='', self_rec=None, app_raises=None, env_hook=None, trusted=False):
+                 must_fail=None, also=(), note='', self_rec=None, app_raises=None, env_hook=None, trusted=False,
+                 summary=None, abstraction=''):
+        self.summary = summary        # cases used at call sites when they speak about an abstract effect that the
+        self.abstraction = abstraction  # body cases define (stated in `abstraction`)
         self.target = target          # 'module.Class.method'
         self.schema = schema
         self.self_obj = self_obj
@@ -45,6 +50,7 @@ class Contract:
         self.app_raises = app_raises
         self.env_hook = env_hook
         self.trusted = trusted        # assumed, body not verified (listed as such)
+        self.labels = {}              # target -> name used in obligation names (inherited methods verified per subclass)
 
     def targets(self):
         return [self.target] + self.also
@@ -55,10 +61,11 @@ class Registry:
         self.by_target = {}
         self.contracts = []
 
-    def add(self, c):
+    def add(self, c, index=True):
         self.contracts.append(c)
-        for t in c.targets():
-            self.by_target[t] = c
+        if index:
+            for t in c.targets():
+                self.by_target[t] = c
         return c
 
     def lookup(self, qual, obj, schema):
@@ -176,11 +183,12 @@ def apply_at_call(eng, ctx, contract, obj, node, args, kwargs, qual, self_val=No
             continue
         eng.oblig('call:%s/pre.%s' % (contract.target, rn), ctx, rt, kind='callpre')
     guards = []
-    for case in contract.cases:
+    site_cases = contract.summary if contract.summary is not None else contract.cases
+    for case in site_cases:
         g = case.when(c0) if case.when else z3.BoolVal(True)
         guards.append(g)
     any_case = False
-    for case, g in zip(contract.cases, guards):
+    for case, g in zip(site_cases, guards):
         g = z3.simplify(g) if not smt.is_quantified(g) else g
         if z3.is_false(g):
             continue
@@ -294,6 +302,7 @@ def verify(contract, target, make_engine, seed=0, timeout_ms=10000, both=False, 
 
 
 def _verify_body(eng, contract, target, mod, cname, node, res, seed, timeout_ms, both, want_models):
+    tname = contract.labels.get(target, target)
     fn = source.prepared(node)
     fn._pyvc_prepared = True
     from .loops import number_loops
@@ -318,11 +327,11 @@ def _verify_body(eng, contract, target, mod, cname, node, res, seed, timeout_ms,
     all_params = names + ([vararg] if vararg else []) + kwonly + ([kwarg] if kwarg else [])
     for p in all_params:
         if p not in contract.params:
-            raise Unsupported('contract of %s does not declare parameter %r (signature changed?)' % (target, p))
+            raise Unsupported('contract of %s does not declare parameter %r (signature changed?)' % (tname, p))
         vars[p] = make_param(eng, ctx, p, contract.params[p])
     for p in contract.params:
         if p not in all_params:
-            raise Unsupported('contract of %s declares parameter %r which the function does not have' % (target, p))
+            raise Unsupported('contract of %s declares parameter %r which the function does not have' % (tname, p))
     if contract.env_hook:
         contract.env_hook(eng, ctx)
     pre = ctx.st
@@ -336,7 +345,7 @@ def _verify_body(eng, contract, target, mod, cname, node, res, seed, timeout_ms,
         ctx.assume(t)
     # vacuity of the precondition
     r = smt.check_sat(list(ctx.pc), timeout_ms=5000, seed=seed)
-    res.obligations.append({'name': '%s/requires-satisfiable' % target, 'status': 'proved' if r != 'unsat' else 'refuted',
+    res.obligations.append({'name': '%s/requires-satisfiable' % tname, 'status': 'proved' if r != 'unsat' else 'refuted',
                             'kind': 'vacuity', 'backend': 'z3', 'time_s': 0, 'paths': 1, 'note': r})
     outs = []
     for o in eng.exec_block(fn.body, ctx):
@@ -356,10 +365,10 @@ def _verify_body(eng, contract, target, mod, cname, node, res, seed, timeout_ms,
         agg.setdefault(name, {'kind': kind, 'items': [], 'tags': tuple(tags), 'expect': expect})['items'].append((hyps, goal))
 
     for ob in eng.obligs:
-        add('%s/%s' % (target, ob.name), ob.hyps, ob.goal, ob.kind)
+        add('%s/%s' % (tname, ob.name), ob.hyps, ob.goal, ob.kind)
     # ---- totality of the cases
     guards = [(case.when(c0) if case.when else z3.BoolVal(True)) for case in contract.cases]
-    add('%s/cases-total' % target, list(ctx.pc[:len(ctx.pc)]) if False else req_terms + _param_facts(ctx), z3.Or(*guards), 'total')
+    add('%s/cases-total' % tname, list(ctx.pc[:len(ctx.pc)]) if False else req_terms + _param_facts(ctx), z3.Or(*guards), 'total')
     # ---- per path: the outcome must be allowed by some case of its kind; every such case's postcondition holds
     from .model import sv_equiv
     for o in outs:
@@ -370,50 +379,74 @@ def _verify_body(eng, contract, target, mod, cname, node, res, seed, timeout_ms,
             if (case.kind == 'return' and o.kind == 'return') or \
                     (case.kind == 'raise' and o.kind == 'raise' and _exc_matches(o.val, case.exc)):
                 matching.append((case, g))
-        add('%s/outcome.%s' % (target, okind), list(c.pc), z3.Or(*[g for _, g in matching]) if matching else z3.BoolVal(False), 'outcome')
+        add('%s/outcome.%s' % (tname, okind), list(c.pc), z3.Or(*[g for _, g in matching]) if matching else z3.BoolVal(False), 'outcome')
+        groups = {}
         for case, g in matching:
-            cname_ = case.name
-            cc = CallCtx(eng, c, pre, c.st, args, self_obj=contract.self_obj)
-            if o.kind == 'return':
-                cc.result = o.val
-            else:
-                cc.exc = o.val
-            clauses = {}
-            if case.update is not None:
-                # expected state = update applied to the pre-state, on a scratch copy of this path
-                cx = c.fork()
-                cx.st = pre
-                ce = CallCtx(eng, cx, pre, pre, args, self_obj=contract.self_obj)
-                case.update(ce)
-                extra = cx.pc[len(c.pc):]
-                for key in contract.modifies:
-                    if cx.st.f[key] is c.st.f[key]:
-                        continue
-                    eqv = sv_equiv(c.st.f[key], cx.st.f[key])
-                    clauses['state[%s.%s]' % key] = z3.Implies(z3.And(*extra), eqv) if extra else eqv
-                for key in cx.st.f:
-                    if key not in contract.modifies and cx.st.f[key] is not pre.f[key]:
-                        raise ValueError('update of %s.%s writes %s outside modifies' % (target, cname_, key))
-            if case.result is not None and callable(case.result) and o.kind == 'return' and case.post is None:
-                exp = case.result(cc)
-                clauses['result'] = eng.equal(c, o.val, exp)
-            post = case.post(cc) if case.post else {}
-            clauses.update(post)
-            hyps = list(c.pc) + [g]     # evaluating the clauses may add boxing facts to c.pc
-            for pn, pt in clauses.items():
-                add('%s/%s.%s' % (target, cname_, pn), hyps, pt, 'post', case.tags or ())
+            groups.setdefault(case.group or case.name, []).append((case, g))
+        for gname, members in groups.items():
+            alts = []
+            for case, g in members:
+                cname_ = case.name
+                cc = CallCtx(eng, c, pre, c.st, args, self_obj=contract.self_obj)
+                if o.kind == 'return':
+                    cc.result = o.val
+                else:
+                    cc.exc = o.val
+                clauses = {}
+                if case.update is not None:
+                    # expected state = update applied to the pre-state, on a scratch copy of this path
+                    cx = c.fork()
+                    cx.st = pre
+                    ce = CallCtx(eng, cx, pre, pre, args, self_obj=contract.self_obj)
+                    ce.result, ce.exc = cc.result, cc.exc
+                    case.update(ce)
+                    extra = cx.pc[len(c.pc):]
+                    for key in contract.modifies:
+                        if cx.st.f[key] is c.st.f[key]:
+                            continue
+                        eqv = sv_equiv(c.st.f[key], cx.st.f[key])
+                        clauses['state[%s.%s]' % key] = z3.Implies(z3.And(*extra), eqv) if extra else eqv
+                    for key in cx.st.f:
+                        if key not in contract.modifies and cx.st.f[key] is not pre.f[key]:
+                            raise ValueError('update of %s.%s writes %s outside modifies' % (tname, cname_, key))
+                if case.result is not None and callable(case.result) and o.kind == 'return':
+                    exp = case.result(cc)
+                    if exp is not None:
+                        clauses['result'] = eng.equal(c, o.val, exp)
+                post = case.post(cc) if case.post else {}
+                clauses.update(post)
+                alts.append((case, g, clauses))
+            hyps0 = list(c.pc)
             fr = []
             for key, sv in c.st.f.items():
                 if key in contract.modifies:
                     continue
                 if sv is not pre.f[key]:
                     fr.append(sv_equiv(sv, pre.f[key]))
-            add('%s/%s.frame' % (target, cname_), hyps, z3.And(*fr) if fr else z3.BoolVal(True), 'frame', case.tags or ())
-            add('%s/%s.reach' % (target, cname_), hyps, z3.BoolVal(False), 'reach', expect='refuted-somewhere')
+            frame = z3.And(*fr) if fr else z3.BoolVal(True)
+            if len(alts) == 1:
+                case, g, clauses = alts[0]
+                hyps = hyps0 + [g]
+                for pn, pt in clauses.items():
+                    add('%s/%s.%s' % (tname, case.name, pn), hyps, pt, 'post', case.tags or ())
+                add('%s/%s.frame' % (tname, case.name), hyps, frame, 'frame', case.tags or ())
+                add('%s/%s.reach' % (tname, case.name), hyps, z3.BoolVal(False), 'reach', expect='refuted-somewhere')
+            else:
+                anyg = z3.Or(*[g for _, g, _ in alts])
+                goal = z3.Or(*[z3.And(g, *cl.values()) for _, g, cl in alts])
+                add('%s/%s.any-of[%s]' % (tname, gname, '|'.join(cs.name for cs, _, _ in alts)), hyps0 + [anyg], goal, 'post')
+                add('%s/%s.frame' % (tname, gname), hyps0 + [anyg], frame, 'frame')
+                for case, g, cl in alts:
+                    # each alternative must be realised by some path (otherwise it is dead specification)
+                    add('%s/%s.reach' % (tname, case.name), hyps0 + [g] + list(cl.values()), z3.BoolVal(False), 'reach', expect='refuted-somewhere')
             if contract.must_fail:
-                for mn, mt in (contract.must_fail(cc) or {}).items():
-                    if mn.startswith(cname_ + ':'):
-                        add('%s/canary.%s' % (target, mn), hyps, mt, 'canary', expect='refuted-somewhere')
+                for case, g, _ in alts:
+                    cc = CallCtx(eng, c, pre, c.st, args, self_obj=contract.self_obj)
+                    cc.result = o.val if o.kind == 'return' else None
+                    cc.exc = o.val if o.kind == 'raise' else None
+                    for mn, mt in (contract.must_fail(cc) or {}).items():
+                        if mn.startswith(case.name + ':'):
+                            add('%s/canary.%s' % (tname, mn), hyps0 + [g], mt, 'canary', expect='refuted-somewhere')
     # ---- discharge
     for name, item in agg.items():
         t1 = time.time()
